@@ -14,13 +14,17 @@ from ..report import Report, key_of
 from ..terms import dag_nodes, has_opaque, pretty
 from ..types import Ctx
 from .c05 import classify, persistent_data_classes
-from .common import TRUSTED_BASE, effects_of, inl, subst_single_assign, where
+from .common import TRUSTED_BASE, cfg_nodes_for, effects_of, inl, subst_single_assign, where
 
 WRITERS = {'numpy.save': 'npy', 'pickle.dump': 'pickle', 'yaml.dump': 'yaml', 'json.dump': 'stdjson'}
 READERS = {'numpy.load': 'npy', 'pickle.load': 'pickle', 'pandas.read_pickle': 'pdpickle', 'yaml.load': 'yaml', 'json.load': 'stdjson'}
 PKG_WRITERS = {'taskchain.utils.json.dump': 'tcjson', 'taskchain.utils.io.write_jsons': 'jsonl', 'taskchain.utils.json.dumps': 'tcjson-s'}
 PKG_READERS = {'taskchain.utils.json.load': 'tcjson', 'taskchain.utils.io.iter_json_file': 'jsonl', 'taskchain.utils.json.loads': 'tcjson-s'}
 METHOD_WRITERS = {'to_pickle': 'pdpickle', 'to_csv': 'csv', 'to_parquet': 'parquet'}
+
+
+def _canon_codecs(cs):
+    return {c[:-2] if c.endswith('-s') else c for c in cs}
 
 
 def codecs(A, f, ci, depth=2):
@@ -126,6 +130,7 @@ def run(A, R: Report, thorough: bool):
         w, _, wm = codecs(A, fs, ci)
         fin = ci.lookup('finished')
         _, r, rm = codecs(A, fl, ci)
+        w, r = _canon_codecs(w), _canon_codecs(r)
         construct = f'{ci.short}: save/load'
         # reads of load must target the visible path (or below it)
         reads = [e for e in E.collect(Ctx(fl, ('inst', ci)), kinds={'FS_READ'}) if e.target is not None]
@@ -158,6 +163,7 @@ def run(A, R: Report, thorough: bool):
         pr = {pretty(e.target) for e in E.collect(Ctx(fl, ('inst', ci)), kinds={'FS_READ'}) if e.target is not None}
         wb, rb = {('b' in m) for m, _ in wm}, {('b' in m) for m, _ in rm}
         enc_ok = {e for _, e in wm} == {e for _, e in rm}
+        w, r = _canon_codecs(w), _canon_codecs(r)      # dumps + write is the codec of dump, loads(read()) that of load
         ok = w == r and pw == pr and len(pw) == 1 and ((not wb and not rb) or wb == rb) and enc_ok
         R.check(ok, 'R06.1', f'{ci.short}: save_value/load_value', key_of('cache-codec', ci.short, sorted(w), sorted(r), sorted(pw), sorted(pr), enc_ok),
                 f'codec {sorted(w)} on {sorted(pw)}', f'writer {sorted(w)} on {sorted(pw)} modes {wm} vs reader {sorted(r)} on {sorted(pr)} modes {rm}', where=where(fl))
@@ -306,6 +312,21 @@ def run(A, R: Report, thorough: bool):
     R.check(twice is None, 'R06.9', f'write_jsons: `{fw.params[0]}`', key_of('consumed-twice', [src(x)[:40] if not isinstance(x, ast.comprehension) else 'comprehension' for x in (twice or ())]), 'one pass over the items',
             f'`{src(twice[0])[:60] if twice else ""}` takes items from `{fw.params[0]}` before `{src(twice[1])[:60] if twice else ""}` writes them: for a generator (GeneratedDataLazy) the items taken first are missing from the stored file, '
             'so the stored sequence is shorter than the one run produced', where=where(fw, twice[0]) if twice else where(fw))
+
+    # ---- R06.10 after storing a lazily generated sequence the computing chain serves it from the file, whatever kind of iterable run returned
+    R.rule('R06.10', 'GeneratedDataLazy.save re-binds the value to the stored file on every path after writing (the written iterable may be exhausted)', floor=1)
+    gl = A.prog.find_cls('GeneratedDataLazy')
+    fsl = gl.methods.get('save') if gl is not None else None
+    R.require(fsl is not None, 'anchor: GeneratedDataLazy.save missing')
+    cfgl = A.cfg(fsl)
+    writes = [n_ for n_ in inl(A, fsl) if isinstance(n_, ast.Call) and src(n_.func).split('.')[-1] == 'write_jsons']
+    loads_ = [n_ for n_ in inl(A, fsl) if isinstance(n_, ast.Call) and src(n_.func) == 'self.load']
+    wn = [cn.id for w_ in writes for cn in cfg_nodes_for(cfgl, w_)]
+    ln = [cn.id for l_ in loads_ for cn in cfg_nodes_for(cfgl, l_)]
+    skip = cfgl.find_path([s_ for x in wn for s_ in cfgl.g.successors(x)], [cfgl.exit.id], avoid=ln, no_exc_from=list(cfgl.nodes)) if wn else None
+    R.check(bool(wn) and bool(ln) and skip is None, 'R06.10', 'GeneratedDataLazy.save', key_of('reload-after-write', bool(wn), bool(ln), skip is None), 'value re-bound to the file after writing, unconditionally',
+            'after writing, some path keeps the iterable that was just consumed as the value (the reload is missing or conditional): for a map / zip / iter object the computing chain returns an empty sequence while a later chain loads the stored rows',
+            witness=cfgl.describe_path(skip) if skip else None, where=where(fsl))
 
 
 def _leaves(t):
